@@ -263,7 +263,7 @@ func (r *WALReader) ReadHeader() error {
 	case 0x377f0683:
 		r.bo = binary.BigEndian
 	default:
-		return fmt.Errorf("invalid wal header magic: %x", magic)
+		return &invalidWALHeaderError{fmt.Sprintf("invalid wal header magic: %x", magic)}
 	}
 
 	// If the header checksum doesn't match then we may have failed with
@@ -282,7 +282,7 @@ func (r *WALReader) ReadHeader() error {
 	// Verify page size is a power of two between 512 and 64K, as SQLite does.
 	pageSize := binary.BigEndian.Uint32(hdr[8:])
 	if pageSize < 512 || pageSize > 65536 || pageSize&(pageSize-1) != 0 {
-		return fmt.Errorf("invalid wal page size: %d", pageSize)
+		return &invalidWALHeaderError{fmt.Sprintf("invalid wal page size: %d", pageSize)}
 	}
 
 	r.pageSize = pageSize
@@ -293,6 +293,13 @@ func (r *WALReader) ReadHeader() error {
 
 	return nil
 }
+
+// invalidWALHeaderError is returned by ReadHeader for bytes that are not a WAL
+// header at all (wrong magic, impossible page size). SQLite treats such a file
+// as a WAL without valid frames.
+type invalidWALHeaderError struct{ msg string }
+
+func (e *invalidWALHeaderError) Error() string { return e.msg }
 
 // ReadFrame reads the next frame from the WAL and returns the page number.
 // Returns io.EOF at the end of the valid WAL.
